@@ -484,6 +484,7 @@ func payload(sid uint16, msg int, n int) []byte {
 type rmsg struct {
 	Data string
 	PPI  PayloadProtocolIdentifier
+	At   time.Duration // virtual time at which the read returned (0 if not recorded)
 }
 
 // readAll reads messages from s until an error; returns them and the error.
